@@ -22,6 +22,10 @@ from .objects import NDArr, SObj
 
 REGISTRY = []  # list of Contract instances
 
+# declared caches: derived data that is outside the observable view (coherence of these is property C11)
+CACHE_ATTRS = ("_vertices", "_Rectangle__shapely_polygon", "_cycle_init_timesteps", "_distance", "_inner_distance",
+               "occupancy_set", "_strtee", "_buffered_polygons", "_lanelet_id_index_by_id")
+
 
 def resolve(qualname):
     """'pkg.mod.Class.func' -> (python object, owner class or None)"""
@@ -230,8 +234,8 @@ class SymFactory:
     def snapshot(self, v):
         return snapshot(v)
 
-    def same(self, snap, v):
-        return deep_eq(snap, v, self)
+    def same(self, snap, v, ignore=CACHE_ATTRS):
+        return deep_eq(snap, v, self, ignore)
 
     def is_none(self, v):
         return v is None
@@ -342,8 +346,8 @@ class NativeFactory:
     def snapshot(self, v):
         return copy.deepcopy(v)
 
-    def same(self, snap, v):
-        return deep_eq(snap, v, self)
+    def same(self, snap, v, ignore=CACHE_ATTRS):
+        return deep_eq(snap, v, self, ignore)
 
     def is_none(self, v):
         return v is None
